@@ -129,7 +129,7 @@ class Interp:
             h.Signal(name=p, width=w, vis=h.signal.Visibility.PORT, direction=h.signal.PortDir[DIRS[d]])
             for p, w, d in ports
         ]
-        self.exts[xid] = h.ExternalModule(name=name, port_list=plist, paramtype=self.XP, domain=domain)
+        self.exts[xid] = h.ExternalModule(name=name, port_list=plist, paramtype=self.XP, domain=domain or None)
 
     def op_module(self, mid, name, style):
         env = ModEnv(mid, name, style)
@@ -354,9 +354,9 @@ class Interp:
         except Exception as e:  # noqa
             return {"ok": False, "exc": norm_exc(e)}
 
-    def op_to_proto(self, mids, single=False):
+    def op_to_proto(self, mids, single=False, domain=None):
         try:
-            pkg = self.h.to_proto(self._targets(mids, single))
+            pkg = self.h.to_proto(self._targets(mids, single), domain=domain) if domain else self.h.to_proto(self._targets(mids, single))
             return {"ok": True, "pkg": pkg}
         except Exception as e:  # noqa
             return {"ok": False, "exc": norm_exc(e)}
@@ -376,6 +376,9 @@ class Interp:
             e = seams.build_faulty_elaborator(h, "boundary", where, cls)
         else:
             cls = seams.make_midpass_fault(h, where, nth, label, self.fault_counter)
+            if cls is None:
+                self.fault_counter["mid_base_missing"] = self.fault_counter.get("mid_base_missing", 0) + 1
+                return h.elab.reset_elaborator()
             e = seams.build_faulty_elaborator(h, "mid", None, cls)
         h.elab.set_elaborator(e)
 
